@@ -348,7 +348,9 @@ class Case:
                 data = st[e.sha].data
             except Exception:  # noqa: BLE001
                 data = None
-            if stat.S_ISLNK(e.mode):
+            if stat.S_ISLNK(e.mode) and e.sha == b"1" * 40:
+                out[comps] = {"t": "gl"}
+            elif stat.S_ISLNK(e.mode):
                 out[comps] = {"t": "l", "to": self.link_comps(data or b"?")}
             elif e.mode == 0o160000:
                 out[comps] = {"t": "g"}
